@@ -122,8 +122,14 @@ func mentionedConstNodes(info *types.Info, body ast.Node, g *constGroup) map[*ty
 			}
 		case *ast.BinaryExpr:
 			if x.Op == token.EQL || x.Op == token.NEQ {
-				match(x.X)
-				match(x.Y)
+				// a literal only stands for a constant of the group when the value it is
+				// compared with can be of the group's type ("delete" == Mutator is not an operation)
+				if literalCompatible(info, x.Y, g) {
+					match(x.X)
+				}
+				if literalCompatible(info, x.X, g) {
+					match(x.Y)
+				}
 			}
 		case *ast.CompositeLit:
 			for _, el := range x.Elts {
